@@ -489,6 +489,81 @@ func c07whenProbe(c *core.Ctx) {
 	}
 }
 
+// a grouping that uses itself compiles into a schema whose levels share their definitions; the parameters
+// mean what they mean on the same tree written out level by level
+func c07recursiveProbe(c *core.Ctx) {
+	head := `module rc { namespace "urn:rc"; prefix rc; revision 2020-01-01;`
+	yR := head + `
+  grouping g { container c { leaf x { type string; } leaf s { config false; type string; } uses g; } }
+  grouping h { list l { key k; leaf k { type string; } leaf v { type int32; default 7; } uses h; } }
+  uses g; uses h; container o { uses g; uses h; } }`
+	yU := head + `
+  container c { leaf x { type string; } leaf s { config false; type string; } container c { leaf x { type string; } leaf s { config false; type string; } container c { leaf x { type string; } leaf s { config false; type string; } container c { leaf x { type string; } leaf s { config false; type string; } } } } }
+  list l { key k; leaf k { type string; } leaf v { type int32; default 7; } list l { key k; leaf k { type string; } leaf v { type int32; default 7; } list l { key k; leaf k { type string; } leaf v { type int32; default 7; } list l { key k; leaf k { type string; } leaf v { type int32; default 7; } } } } }
+  container o {
+  container c { leaf x { type string; } leaf s { config false; type string; } container c { leaf x { type string; } leaf s { config false; type string; } container c { leaf x { type string; } leaf s { config false; type string; } container c { leaf x { type string; } leaf s { config false; type string; } } } } }
+  list l { key k; leaf k { type string; } leaf v { type int32; default 7; } list l { key k; leaf k { type string; } leaf v { type int32; default 7; } list l { key k; leaf k { type string; } leaf v { type int32; default 7; } list l { key k; leaf k { type string; } leaf v { type int32; default 7; } } } } }
+  } }`
+	doc := `{"c":{"x":"1","s":"a","c":{"x":"2","c":{"x":"3","s":"c","c":{"x":"4"}}}},
+ "l":[{"k":"a","v":7,"l":[{"k":"b","v":1,"l":[{"k":"c","l":[{"k":"d","v":7}]},{"k":"c2"}]},{"k":"b2","v":7}]},{"k":"a2"}],
+ "o":{"c":{"x":"1","c":{"x":"2","s":"b","c":{"x":"3","c":{"x":"4","s":"d"}}}},"l":[{"k":"a","l":[{"k":"b","v":7,"l":[{"k":"c","v":3}]}]}]}}`
+	mR, err := parser.LoadModuleFromString(nil, yR)
+	if err != nil {
+		c.Violation(core.Replay{Kind: "property-failure", Class: "recursive-probe-load", Summary: "module with self-using groupings does not load: " + err.Error(), Input: yR})
+		return
+	}
+	mU, err := parser.LoadModuleFromString(nil, yU)
+	if err != nil {
+		c.Violation(core.Replay{Kind: "harness", Summary: "c07recursive module: " + err.Error(), NoInputFound: true})
+		return
+	}
+	read := func(m *meta.Module, find string) string {
+		var o string
+		e := safeDo(func() error {
+			src, err := nodeutil.ReadJSON(doc)
+			if err != nil {
+				return err
+			}
+			sel, err := node.NewBrowser(m, src).Root().Find(find)
+			if err != nil {
+				return err
+			}
+			if sel == nil {
+				o = "nil"
+				return nil
+			}
+			o, err = nodeutil.WriteJSON(sel)
+			return err
+		})
+		if e != nil {
+			return "error " + short(e.Error())
+		}
+		return o
+	}
+	params := []string{"", "depth=1", "depth=2", "depth=3", "depth=4", "depth=5", "content=config", "content=nonconfig", "with-defaults=trim", "depth=2&content=config", "depth=3&with-defaults=trim",
+		"fields=c%2Fx", "fields=c%2Fc%2Fx%3Bx", "fc.xfields=c%2Fc", "fc.xfields=l%2Fl%2Fv", "fc.range=l!1-1", "fc.range=l%2Fl!0-0", "depth=2&fc.range=l!0-0", "fields=l%2Fk%3Bc&depth=2"}
+	for _, target := range []string{"", "c", "c/c", "c/c/c", "o", "o/c", "o/c/c", "l", "l=a", "l=a/l", "l=a/l=b", "l=a/l=b/l", "o/l", "o/l=a", "o/l=a/l=b"} {
+		for _, q := range params {
+			find := target
+			if q != "" {
+				find += "?" + q
+			}
+			if find == "" {
+				find = "?depth=99"
+			}
+			r, u := read(mR, find), read(mU, find)
+			c.Evaluations++
+			c.Count("recursive_probe_parameter", strings.SplitN(q, "=", 2)[0])
+			c.Distinct("recprobe " + find)
+			if r != u {
+				c.Violation(core.Replay{Kind: "property-failure", Class: "recursive-grouping-" + strings.SplitN(q, "=", 2)[0],
+					Summary: fmt.Sprintf("Find(%q) on a schema of self-using groupings gives %s; the same schema written out level by level gives %s", find, short(r), short(u)),
+					Input:   map[string]interface{}{"yang": yR, "yang_unrolled": yU, "data": doc, "find": find}, Impl: r, Spec: u})
+			}
+		}
+	}
+}
+
 // the rows a constrained list selection yields when it is walked entry by entry (First / Next) are the rows its
 // whole read shows
 func c07iterProbe(c *core.Ctx) {
@@ -567,7 +642,8 @@ func c07iterProbe(c *core.Ctx) {
 func C07(c *core.Ctx) {
 	c07whenProbe(c)
 	c07iterProbe(c)
-	c.Rule = "generated schemas (containers, keyed lists nested up to 3 levels, config-false containers/lists/leaves, defaults) × trees (values equal to their default, unset leaves with defaults, lists of 0–4 entries) × targets (module, container, list, list entry) × queries: every parameter alone and random combinations of depth (1–5), content (config/nonconfig/all), fields and fc.xfields (random expressions over the schema: nested paths, alternatives, groups, something after a group, unknown names), with-defaults=trim, fc.range (windows incl. empty, reversed, out of range, on nested lists, several lists, the target list itself), raw and percent-encoded; result (WriteJSON of the constrained selection) compared with the Lean projection model; source store compared before/after; ParsePathExpression compared with the Lean parser on every generated and on malformed expressions; a stream of invalid parameter values must be refused; directed: a module whose ten when conditions all hold against the same module without them, 11 targets × 18 parameter sets (content, with-defaults, depth, fields, fc.xfields, fc.range and combinations). non-trivial = query that removes something but not everything; distinct by (schema, tree, target, query)"
+	c07recursiveProbe(c)
+	c.Rule = "generated schemas (containers, keyed lists nested up to 3 levels, config-false containers/lists/leaves, defaults) × trees (values equal to their default, unset leaves with defaults, lists of 0–4 entries) × targets (module, container, list, list entry) × queries: every parameter alone and random combinations of depth (1–5), content (config/nonconfig/all), fields and fc.xfields (random expressions over the schema: nested paths, alternatives, groups, something after a group, unknown names), with-defaults=trim, fc.range (windows incl. empty, reversed, out of range, on nested lists, several lists, the target list itself), raw and percent-encoded; result (WriteJSON of the constrained selection) compared with the Lean projection model; source store compared before/after; ParsePathExpression compared with the Lean parser on every generated and on malformed expressions; a stream of invalid parameter values must be refused; directed: a module whose ten when conditions all hold against the same module without them, 11 targets × 18 parameter sets (content, with-defaults, depth, fields, fc.xfields, fc.range and combinations); a schema of self-using groupings (container, keyed list) against the same schema written out level by level, 15 targets × 19 parameter sets. non-trivial = query that removes something but not everything; distinct by (schema, tree, target, query)"
 	c.Assumptions = append(c.Assumptions,
 		"the result is observed through the JSON writer (C15) and decoded by encoding/json; an empty array and an absent list are not distinguished",
 		"fc.range windows are rows start..end, both included (the reading under which '!0-0' is the first row, as the library answers)")
